@@ -19,13 +19,18 @@ def rule_reuse_first(fx, col):
         fn = ab.fname
         ok = False
         why = 'allocation is not the fallback of a failed reuse attempt'
-        parent = lib.by_key.get(ab.j.get('parent')) if ab.kind == 'Closure' else None
-        if parent is not None:
+        # the allocating body is a closure of, or a named function mentioned by, the body that tried to reuse first
+        parents = [lib.by_key.get(ab.j.get('parent'))] if ab.kind == 'Closure' else \
+            [p for p in lib.bodies if any(cb is ab for _, cb in U.fnitem_mentions(lib, p))]
+        for parent in [p for p in parents if p is not None]:
             for bb, t in parent.calls(include_cleanup=False):
                 if U.callee_name(t) == 'unwrap_or_else' and 'option::Option' in t['callee'].get('path', ''):
-                    # second arg is our closure
-                    d = U.def_rvalue(parent, t['args'][1])
-                    if not (d and d[0] == 'rv' and d[3]['k'] == 'aggregate' and d[3].get('closure') == ab.key):
+                    # second arg is our closure / fn item
+                    a1 = t['args'][1]
+                    d = U.def_rvalue(parent, a1)
+                    is_ours = (d and d[0] == 'rv' and d[3]['k'] == 'aggregate' and d[3].get('closure') == ab.key) or \
+                        (a1['k'] == 'const' and a1['c'].get('fn') == ab.key)
+                    if not is_ours:
                         continue
                     # first arg: result of a traverse whose closure claims a node
                     for o in parent.origins(t['args'][0]):
@@ -40,9 +45,16 @@ def rule_reuse_first(fx, col):
                                     ok = True
                                     why = 'Box<Node> is allocated only in the unwrap_or_else fallback of the claiming traverse (%s)' % claims[0].loc
                                     # cooldown check before the claim
-                                    cc = [x for x, t3, b3 in cx.local_calls(cb) if b3.fname.endswith('Node::check_cooldown')]
-                                    col.add('REUSE-FIRST', '%s|check_cooldown before claim' % cb.fname,
-                                            bool(cc) and all(cb.dominates(x, claims[0].bb) and x != claims[0].bb for x in cc),
+                                    # a COOLDOWN -> UNUSED release attempt (directly or in a callee) precedes the claim
+                                    def releases(s):
+                                        return s.cls == 'in_use' and s.op.startswith('compare_exchange') and \
+                                            U.int_of(s.body, s.arg(1)) == cx.NODE_COOLDOWN and U.int_of(s.body, s.arg(2)) == cx.NODE_UNUSED
+                                    cc = [x for x, t3, b3 in cx.local_calls(cb) if cx.summ.has_site(b3.key, releases)]
+                                    own = [s.bb for s in cx.summ.sites_by_body.get(cb.key, ()) if releases(s)]
+                                    okc = (bool(cc) and all(cb.dominates(x, claims[0].bb) and x != claims[0].bb for x in cc)) or \
+                                        (bool(own) and all(cb.reach_from(x, unwind=False) & {claims[0].bb} for x in own) and
+                                         not any(x in cb.reach_from(cb.term(claims[0].bb)['target'], unwind=False) for x in own))
+                                    col.add('REUSE-FIRST', '%s|check_cooldown before claim' % cb.fname, okc,
                                             'each visited node gets a chance to leave cooldown before the claim attempt')
                                     # Some(node) returned only on the success outcome
                                     from .protect import _on_cas_success
